@@ -102,6 +102,125 @@ for (n, tier) in ((1, "quick"), (2, "quick"), (4, "thorough")):
     _k("s2_send_multi_mpmc_n%d" % n, MQ_S, "S", ["C01", "C02", "C03", "C05", "C06", "C09", "C12"], tier, b)
     _k("s3_recv_mpmc_n%d" % n, MQ_S, "S", ["C01", "C02", "C04", "C05", "C06", "C07", "C09"], tier, b)
 
+# S4 view on a sole-consumer stream
+for (fl, ns) in (("bcast", ((1, "quick"), (2, "quick"), (4, "thorough"))), ("mpmc", ((1, "quick"), (2, "quick"), (4, "thorough")))):
+    for (n, tier) in ns:
+        _k("s4_view_%s_n%d" % (fl, n), MQ_S, "S", ["C01", "C02", "C04", "C05", "C06", "C07", "C09"], tier,
+           "N=%d, %s; sole consumer; head, positions, payloads symbolic" % (n, "<=3 streams" if fl == "bcast" else "1 stream"))
+
+# S7 InnerSend::try_send
+_k("s7_inner_send_bcast_n2_k0", MQ_S, "S", ["C13", "C09", "C16"], "quick", "N=2, no stream left; signals symbolic")
+_k("s7_inner_send_mpmc_n2_k0", MQ_S, "S", ["C13", "C09", "C16"], "quick", "N=2, no stream left; signals symbolic")
+for (nm, tier) in (("bcast_n1_k1", "quick"), ("bcast_n2_k2", "quick"), ("bcast_n4_k2", "thorough"),
+                   ("mpmc_n1_k1", "thorough"), ("mpmc_n2_k1", "quick"), ("mpmc_n4_k1", "thorough")):
+    _k("s7_inner_send_" + nm, MQ_S, "S", ["C01", "C03", "C05", "C09", "C12", "C16", "C08", "C14"], tier,
+       nm + "; handle mode, writer count, epoch flag, notify flag symbolic")
+
+# S8 InnerRecv entry points (blocking forms under the scripted wake-up)
+for (nm, tier, props) in (
+        ("try_recv_bcast_n2", "quick", ["C01", "C07", "C09", "C16", "C18"]),
+        ("recv_bcast_n1", "thorough", ["C01", "C07", "C08", "C09"]),
+        ("recv_bcast_n2", "quick", ["C01", "C07", "C08", "C09"]),
+        ("recv_bcast_n4", "thorough", ["C01", "C07", "C08", "C09"]),
+        ("try_view_bcast_n2", "quick", ["C01", "C04", "C07", "C09", "C18"]),
+        ("recv_view_bcast_n2", "quick", ["C01", "C04", "C07", "C08", "C09"]),
+        ("try_recv_mpmc_n2", "quick", ["C01", "C07", "C09", "C16", "C18"]),
+        ("recv_mpmc_n1", "thorough", ["C01", "C07", "C08", "C09"]),
+        ("recv_mpmc_n2", "quick", ["C01", "C07", "C08", "C09"]),
+        ("recv_mpmc_n4", "thorough", ["C01", "C07", "C08", "C09"]),
+        ("try_view_mpmc_n2", "thorough", ["C01", "C04", "C05", "C07", "C09", "C18"]),
+        ("recv_view_mpmc_n2", "quick", ["C01", "C04", "C05", "C07", "C08", "C09"])):
+    _k("s8_" + nm, MQ_S, "S", props, tier, nm + "; arbitrary wf state; scripted wake-up (publish one value | all senders leave)")
+
+# S10 clone / drop / unsubscribe
+for fl in ("bcast", "mpmc"):
+    _k("s10_clone_send_%s_n2" % fl, MQ_S, "S", ["C07", "C09", "C12", "C16"], "quick", "N=2, 1 stream")
+    _k("s10_drop_send_%s_n2" % fl, MQ_S, "S", ["C07", "C08", "C09", "C12", "C14", "C16", "C17"], "quick", "N=2, 1 stream")
+    _k("s10_clone_recv_%s_n2" % fl, MQ_S, "S", ["C01", "C09", "C11", "C12", "C16"], "quick", "N=2")
+_k("s10_drop_recv_bcast_n2_k1", MQ_S, "S", ["C05", "C09", "C11", "C12", "C13", "C16", "C17"], "quick", "N=2, 1 stream, <=3 consumers")
+_k("s10_drop_recv_bcast_n2_k2", MQ_S, "S", ["C09", "C11", "C12", "C13", "C16", "C17"], "quick", "N=2, 2 streams, <=3 consumers each")
+_k("s10_drop_recv_bcast_n2_k3", MQ_S, "S", ["C09", "C11", "C12", "C13", "C16", "C17"], "thorough", "N=2, 3 streams")
+_k("s10_unsub_recv_bcast_n2_k2", MQ_S, "S", ["C09", "C11", "C12", "C16", "C17"], "quick", "N=2, 2 streams; unsubscribe()")
+_k("s10_drop_recv_mpmc_n2", MQ_S, "S", ["C05", "C09", "C11", "C12", "C13", "C16", "C17"], "quick", "N=2, 1 stream")
+_k("s10_unsub_recv_mpmc_n2", MQ_S, "S", ["C09", "C11", "C12", "C16", "C17"], "thorough", "N=2, 1 stream; unsubscribe()")
+
+# S9 add_stream (sequential)
+_k("s9_add_stream_bcast_n2_k1", MQ_S, "S", ["C09", "C10", "C16"], "quick", "N=2, 1 stream")
+_k("s9_add_stream_bcast_n2_k2", MQ_S, "S", ["C09", "C10", "C16"], "quick", "N=2, 2 streams")
+_k("s9_add_stream_bcast_n4_k2", MQ_S, "S", ["C09", "C10", "C16"], "thorough", "N=4, 2 streams")
+
+# S11 teardown of the ring
+for fl in ("bcast", "mpmc"):
+    for (n, tier) in ((1, "quick"), (2, "quick"), (4, "thorough")):
+        _k("s11_drop_queue_%s_n%d" % (fl, n), MQ_S, "S", ["C05", "C09", "C17"], tier,
+           "N=%d; head, last position, payloads symbolic; no stream, no sender left" % n)
+
+# S12 futures layer (spin counts concrete: s<first><yield>)
+for (nm, tier, props) in (
+        ("start_send_bcast_n2_k0", "quick", ["C13", "C15"]),
+        ("start_send_mpmc_n2_k0", "quick", ["C13", "C15"]),
+        ("start_send_bcast_n2_s00", "quick", ["C01", "C03", "C14", "C15"]),
+        ("start_send_bcast_n2_s11", "thorough", ["C01", "C03", "C14", "C15"]),
+        ("start_send_mpmc_n2_s00", "quick", ["C01", "C03", "C14", "C15"]),
+        ("start_send_mpmc_n1_s21", "thorough", ["C01", "C03", "C14", "C15"]),
+        ("poll_shared_bcast_n2_s00", "quick", ["C01", "C07", "C14", "C15"]),
+        ("poll_shared_bcast_n2_s11", "thorough", ["C01", "C07", "C14", "C15"]),
+        ("poll_shared_mpmc_n2_s00", "quick", ["C01", "C07", "C14", "C15"]),
+        ("poll_shared_mpmc_n1_s11", "thorough", ["C01", "C07", "C14", "C15"]),
+        ("poll_uni_bcast_n2_s00", "quick", ["C01", "C04", "C07", "C14", "C15"]),
+        ("poll_uni_mpmc_n2_s11", "quick", ["C01", "C04", "C05", "C07", "C14", "C15"]),
+        ("direct_try_recv_bcast_n2", "quick", ["C14", "C15", "C18"]),
+        ("direct_try_recv_mpmc_n2", "quick", ["C14", "C15", "C18"]),
+        ("direct_recv_bcast_n2", "quick", ["C14", "C15"]),
+        ("direct_recv_mpmc_n2", "thorough", ["C14", "C15"]),
+        ("direct_uni_try_bcast_n2", "quick", ["C14", "C15", "C18"]),
+        ("direct_uni_try_mpmc_n2", "thorough", ["C14", "C15", "C18"]),
+        ("direct_uni_recv_bcast_n2", "thorough", ["C14", "C15"]),
+        ("direct_uni_recv_mpmc_n2", "quick", ["C14", "C15"]),
+        ("recv_blocks_bcast_n2", "quick", ["C15"]),
+        ("recv_blocks_mpmc_n2", "quick", ["C15"]),
+        ("recv_blocks_uni_bcast_n2", "thorough", ["C15"]),
+        ("drop_recv_bcast_n2", "quick", ["C11", "C13", "C14"]),
+        ("drop_recv_mpmc_n2", "quick", ["C11", "C13", "C14"]),
+        ("drop_unirecv_bcast_n2", "thorough", ["C11", "C13", "C14"]),
+        ("drop_send_bcast_n2", "quick", ["C07", "C14"]),
+        ("drop_send_mpmc_n2", "thorough", ["C07", "C14"])):
+    _k("s12_" + nm, MQ_S, "S", props, tier, nm + "; arbitrary wf state; tasks pre-parked on both lists symbolically")
+
+# S13 memory manager epoch contract
+MEM = "memory::verif_contracts::proofs"
+for (nm, tier) in (("free_t0_b1_w0", "quick"), ("free_t1_b1_w0", "quick"), ("free_t2_b2_w0", "quick"),
+                   ("free_t2_b0_w20", "quick"), ("free_t1_b1_w20", "thorough")):
+    _k("s13_" + nm, MEM, "S", ["C16", "C17"], tier, nm + " (t=tokens, b=batch objects, w=waiting objects); all epochs symbolic")
+_k("s13_tokens_t0", MEM, "S", ["C16", "C17"], "thorough", "0 other tokens")
+_k("s13_tokens_t2", MEM, "S", ["C16", "C17"], "quick", "2 other tokens, symbolic epochs")
+_k("s13_drop_b1_w0", MEM, "S", ["C17"], "quick", "teardown with 1 batch object")
+_k("s13_drop_b0_w2", MEM, "S", ["C17"], "quick", "teardown with 2 waiting objects")
+_k("p11_signal_bits", "atomicsignal::verif_contracts::proofs", "Pk", ["C13", "C16"], "quick", "all 2^64 flag words")
+
+# layer I: real ring operations under the protocol environment (budget b = env actions per call)
+IB = "budget of %d environment actions per call; env = other senders claiming/publishing, consumers of every stream, sibling pins, handle churn"
+for (nm, tier, props, b) in (
+        ("i1_send_multi_bcast_n2_b2", "quick", ["C01", "C02", "C03", "C04", "C12"], 2),
+        ("i1_send_multi_bcast_n2_b3", "thorough", ["C01", "C02", "C03", "C04", "C12"], 3),
+        ("i1_send_multi_mpmc_n2_b2", "quick", ["C01", "C02", "C03", "C12"], 2),
+        ("i1_send_single_bcast_n2_b2", "quick", ["C01", "C03", "C04", "C12"], 2),
+        ("i1_send_single_mpmc_n2_b2", "thorough", ["C01", "C03", "C12"], 2),
+        ("i1_send_multi_bcast_n1_b2", "thorough", ["C01", "C02", "C03", "C04", "C12"], 2),
+        ("i1_send_multi_bcast_n4_b3", "thorough", ["C01", "C02", "C03", "C04", "C12"], 3),
+        ("i2_recv_shared_bcast_n2_b2", "quick", ["C01", "C02", "C04", "C05", "C06", "C07", "C12"], 2),
+        ("i2_recv_shared_bcast_n2_b3", "thorough", ["C01", "C02", "C04", "C05", "C06", "C07", "C12"], 3),
+        ("i2_recv_shared_mpmc_n2_b2", "quick", ["C01", "C02", "C05", "C06", "C07", "C12"], 2),
+        ("i2_recv_shared_mpmc_n2_b3", "thorough", ["C01", "C02", "C05", "C06", "C07", "C12"], 3),
+        ("i2_recv_sole_bcast_n2_b2", "quick", ["C01", "C02", "C04", "C07", "C12"], 2),
+        ("i2_recv_sole_mpmc_n2_b2", "thorough", ["C01", "C02", "C07", "C12"], 2),
+        ("i2_recv_shared_bcast_n1_b2", "thorough", ["C01", "C02", "C04", "C05", "C06", "C07"], 2),
+        ("i2_recv_shared_bcast_n4_b3", "thorough", ["C01", "C02", "C04", "C05", "C06", "C07"], 3),
+        ("i7_view_bcast_n2_b2", "quick", ["C01", "C04", "C07"], 2),
+        ("i7_view_mpmc_n2_b2", "quick", ["C01", "C04", "C05", "C07"], 2),
+        ("i7_view_bcast_n1_b3", "thorough", ["C01", "C04", "C07"], 3)):
+    _k(nm, MQ_S, "I", props, tier, IB % b, label="proved-for-stated-bounds (<= %d env actions, retries bounded by them)" % b)
+
 # ------------------------------------------------------------------------------------------------
 # compile probes (layer X) are generated by tools/probes.py; all serve C19
 PROBE_PROPS = ["C19"]
